@@ -323,18 +323,32 @@ def evaluate(t, env, cache=None):
     return r
 
 
+_UNINT = {}
+
+
+def has_uninterpreted(t):
+    """does the term contain a call the analyser gives no meaning to?"""
+    if not isinstance(t, T):
+        return False
+    k = t.key()
+    if k not in _UNINT:
+        r = (t.op == "call" and t.args[0] not in INTERPRETED) or any(has_uninterpreted(a) for a in t.args)
+        _UNINT[k] = r
+    return _UNINT[k]
+
+
 def _cond_value(c, env, cache):
-    """truth value of a branch condition; an un-modelled predicate is interpreted as a fixed pseudo-random boolean
-    function (so both outcomes are exercised across the random points)"""
+    """truth value of a branch condition; a condition that depends on an un-modelled value is interpreted as a
+    pseudo-random boolean (fixed per random point), so that both outcomes are exercised across the points"""
     if isinstance(c, T):
         if c.op in ("and", "or") and len(c.args) == 2:
             a, b = _cond_value(c.args[0], env, cache), _cond_value(c.args[1], env, cache)
             return np.logical_and(a, b) if c.op == "and" else np.logical_or(a, b)
         if c.op == "not":
             return np.logical_not(_cond_value(c.args[0], env, cache))
-        if c.op == "call" and c.args[0] not in INTERPRETED:
-            v = evaluate(c, env, cache)
-            return bool(int(float(v) * 7919.0) % 2 == 0)
+        if has_uninterpreted(c):
+            h = hashlib.md5((c.key() + repr(env.get("__salt__", 0.0))).encode()).digest()
+            return bool(h[0] & 1)
     v = evaluate(c, env, cache)
     return v
 
